@@ -507,6 +507,35 @@ def check_naive_utc(ctx, rule):
 
 
 
+    # local-time sensitive operations: on a naive value they read the process time zone, so "naive means UTC" would depend on TZ
+    from .. import logic as _lg
+
+    n_sites = 0
+    for c in calls_in(dn):
+        if not isinstance(c.func, ast.Attribute):
+            continue
+        a = c.func.attr
+        if a == "astimezone":
+            n_sites += 1
+            recv = norm(c.func.value)
+            nd = dcfg.header_node_for_expr(c) or dcfg.node_of(c)
+            aware = _lg.implies(_lg.facts_as_premises(dcfg.facts_at(nd.id)), _lg.parse(f"{recv}.tzinfo is not None"))
+            ctx.check(aware, rule, f"datetime.__new__:astimezone({recv})", f"`{norm(c)}` can run for a naive `{recv}`: astimezone() reads a naive value as LOCAL time, so the stored "
+                      "instant depends on the TZ of the process instead of being UTC", c, f"{recv} is known to be aware here", key=rule + ":datetime.__new__:astimezone-on-naive")
+        elif a in ("fromtimestamp",):
+            n_sites += 1
+            has_tz = len(c.args) >= 2 or get_kw(c, "tz") is not None
+            ctx.check(has_tz, rule, "datetime.__new__:fromtimestamp", f"`{norm(c)}` has no tz argument: the epoch value is converted to local time", c, "tz given",
+                      key=rule + ":datetime.__new__:fromtimestamp-local")
+        elif a in ("utcfromtimestamp", "utcnow", "today", "mktime", "localtime", "timetuple") and a != "timetuple":
+            n_sites += 1
+            ctx.fail(rule, f"datetime.__new__:{a}", f"`{norm(c)}` produces a naive / local-time value inside the constructor", c, key=rule + f":datetime.__new__:{a}")
+        elif a == "now" and not c.args and not c.keywords:
+            n_sites += 1
+            ctx.fail(rule, "datetime.__new__:now()", "`now()` without a time zone is local time", c, key=rule + ":datetime.__new__:now-local")
+    ctx.sample({"rule": rule, "local-time sensitive call sites in datetime.__new__": n_sites})
+
+
 def _instantiate(fragment: str) -> str:
     """Replace str.format placeholders of a generated-code fragment by a canonical identifier."""
     out = []
